@@ -1,99 +1,32 @@
+// pageops: replays TLC-generated behaviours of the abstract document machine (spec/Doc.tla) into the real pdfcpu API.
+//
+//	pageops c32 --in cases.ndjson --out mismatches.ndjson [--nt keys.txt] [--shard i --of k] [--mode bfs|sim]   page operations (Doc32.tla)
+//	pageops c33 ...                                                                                          split / merge (Doc33.tla)
+//	pageops c35 ...                                                                                          metadata edits (Doc35.tla)
+//
+// Every sub-command prints one "SUMMARY {json}" line; mismatches (one JSON object per line, with a stable "key") go to --out.
 package main
 
 import (
-	"fmt"
 	"os"
-	"path/filepath"
 
 	"github.com/pdfcpu/pdfcpu/pkg/api"
-	"github.com/pdfcpu/pdfcpu/pkg/pdfcpu/types"
 	"verif/harness/lib/h"
-	"verif/harness/lib/proj"
 )
-
-func show(tag, path string) {
-	ps, err := proj.Pages(path, nil)
-	if err != nil {
-		fmt.Println(tag, "ERR", err)
-		return
-	}
-	fmt.Print(tag, ": ")
-	for _, p := range ps {
-		fmt.Printf("[%s r%d m%v c%v hc=%v] ", p.Marker, p.Rot, p.Media, p.Crop, p.HasCrop)
-	}
-	fmt.Println()
-}
-
-func probe() {
-	dir, _ := os.MkdirTemp("", "pageops-probe-")
-	defer os.RemoveAll(dir)
-	in := DocIn{Media: Box{0, 0, 595, 842}, Rot: 90, Groups: []GroupIn{
-		{Node: false, Rot: -1, Pages: []PageIn{{Mark: "p1", Rot: -1, Media: Box{0, 0, 200, 300}}, {Mark: "p2", Rot: -1}}},
-		{Node: true, Rot: 180, Media: Box{0, 0, 400, 500}, Crop: Box{10, 10, 300, 300}, Pages: []PageIn{{Mark: "p3", Rot: -1}, {Mark: "p4", Rot: 0, Crop: Box{5, 5, 100, 100}}}},
-		{Node: true, Rot: -1, Pages: []PageIn{{Mark: "p5", Rot: 270}, {Mark: "p6", Rot: -1}}},
-	}}
-	f := filepath.Join(dir, "a.pdf")
-	os.WriteFile(f, buildDoc(in, docExtras{}), 0644)
-	show("orig", f)
-	o := filepath.Join(dir, "o.pdf")
-	fmt.Println("insert after all:", api.InsertPagesFile(f, o, nil, false, nil, nil))
-	show("ins", o)
-	fmt.Println("insert before 1,4:", api.InsertPagesFile(f, o, []string{"1", "4"}, true, nil, nil))
-	show("ins", o)
-	fmt.Println("trim 2-5:", api.TrimFile(f, o, []string{"2-5"}, nil))
-	show("trim", o)
-	os.Remove(o)
-	fmt.Println("trim 9:", api.TrimFile(f, o, []string{"9"}, nil))
-	st, err := os.Stat(o)
-	if err == nil {
-		fmt.Println("  out size", st.Size())
-	} else {
-		fmt.Println("  out:", err)
-	}
-	os.Remove(o)
-	fmt.Println("trim nil:", api.TrimFile(f, o, nil, nil))
-	st, err = os.Stat(o)
-	if err == nil {
-		fmt.Println("  out size", st.Size())
-	} else {
-		fmt.Println("  out:", err)
-	}
-	fmt.Println("rotate 90 3-5:", api.RotateFile(f, o, 90, []string{"3-5"}, nil))
-	show("rot", o)
-	fmt.Println("collect 4,3,3,1:", api.CollectFile(f, o, []string{"4", "3", "3", "1"}, nil))
-	show("coll", o)
-	fmt.Println("remove 1:", api.RemovePagesFile(f, o, []string{"1"}, nil))
-	show("rem", o)
-	fmt.Println("remove 9:", api.RemovePagesFile(f, o, []string{"9"}, nil))
-	show("rem", o)
-	fmt.Println("remove all:", api.RemovePagesFile(f, o, []string{"1-"}, nil))
-	pb, err := api.PageBoundariesFromBoxList("crop")
-	fmt.Println("removeboxes crop:", err, api.RemoveBoxesFile(f, o, nil, pb, nil))
-	show("rmb", o)
-	b, err := api.Box("20", types.POINTS)
-	fmt.Println("crop 20:", err, api.CropFile(f, o, []string{"1-3"}, b, nil))
-	show("crop", o)
-	b, err = api.Box("[10 10 50 60]", types.POINTS)
-	fmt.Println("crop rect:", err, api.CropFile(f, o, []string{"2,4"}, b, nil))
-	show("crop", o)
-	pb, err = api.PageBoundaries("media:[0 0 100 100], trim:[1 1 9 9]", types.POINTS)
-	fmt.Println("addboxes:", err, api.AddBoxesFile(f, o, []string{"2,4"}, pb, nil))
-	show("addb", o)
-}
 
 func main() {
 	api.DisableConfigDir()
 	if len(os.Args) < 2 {
-		h.Die("usage: pageops c32|c33|c35 ...")
+		h.Die("usage: pageops c32|c33|c35 --in cases.ndjson --out mismatches.ndjson [--shard i --of k]")
 	}
 	switch os.Args[1] {
-	case "probe":
-		probe()
-	case "probe2":
-		probe2()
-	case "probe3":
-		probe3()
+	case "c32":
+		c32main()
+	case "c33":
+		c33main()
+	case "c35":
+		c35main()
 	default:
-		h.Die("usage: pageops c32|c33|c35 ...")
+		h.Die("usage: pageops c32|c33|c35 --in cases.ndjson --out mismatches.ndjson [--shard i --of k]")
 	}
 }
